@@ -323,7 +323,7 @@ func emitParse(g *hx.Gen, class, outerTag, mode string, file, pass []byte) {
 // ---------------------------------------------------------------- generator
 
 func gen(g *hx.Gen) {
-	n := g.Count(2000, 100000)
+	n := g.Count(2000, 30000)
 	r := g.R
 	nkg := 0
 	for i := 0; i < n; i++ {
